@@ -166,7 +166,8 @@ def report(pid: str, violations: list[dict], viol_counts: dict, known: dict[str,
     """Prints VIOLATION / KNOWN-FINDING lines; returns (#unlisted violations, matched known)."""
     matched: dict[str, int] = {}
     unlisted = 0
-    rdir = os.path.join(ROOT, "replays", pid)
+    # witnesses found on scratch copies (seeded changes) are kept apart from those found on /repo
+    rdir = os.path.join(ROOT, "replays" if os.path.realpath(os.environ.get("VERIF_REPO", "/repo")) == "/repo" else ".scratch/replays", pid)
     seen_known: set[str] = set()
     printed: dict[str, int] = {}
     n = 0
